@@ -424,4 +424,68 @@ theorem attemptStep_spec (P : SProto Q) (cls : Bytes → Ev) (lim : Limits) (req
               exact ⟨by omega, by rw [ha.2.1, p2, hw], ha.2.2⟩)
        · exact ⟨by simp only [Step.sys]; omega, hw, fun _ _ hc => by cases hc⟩)
 
+theorem afterLoss_next (P : SProto Q) (lim : Limits) (retry : Bool) (i : Nat) (s : Sys Q) (es : List SEv) (l : Out)
+    (s1 : Sys Q) (es1 : List SEv) (h : afterLoss P lim retry i s es = .next s1 es1 l) : l = .missing true := by
+  unfold afterLoss at h
+  split at h
+  · dsimp only at h
+    generalize reconnect P _ _ = r at h
+    obtain ⟨rc, s2, es2⟩ := r
+    cases rc <;> simp only at h <;> cases h
+    rfl
+  · cases h; rfl
+
+theorem attemptStep_next (P : SProto Q) (cls : Bytes → Ev) (lim : Limits) (req : Bytes) (tmo : Option Nat) (retry : Bool)
+    (i : Nat) (s : Sys Q) (es : List SEv) (last l : Out) (s1 : Sys Q) (es1 : List SEv) (hl : last ≠ .blocked)
+    (h : attemptStep P cls lim req tmo retry i s es last = .next s1 es1 l) : l ≠ .blocked := by
+  unfold attemptStep at h
+  repeat' split at h
+  all_goals first
+    | (cases h; first | exact hl | simp)
+    | (have := afterLoss_next _ _ _ _ _ _ _ _ _ h; rw [this]; simp)
+    | cases h
+
+/-! ### the whole call -/
+
+/-- time budget of a call from attempt `i` on with `k` retries left -/
+def callBudget (P : SProto Q) (lim : Limits) (t : Nat) (hp : Bool) : Nat → Nat → Nat
+  | 0, i => attemptBudget P lim t i hp false
+  | k+1, i => attemptBudget P lim t i hp true + callBudget P lim t hp k (i + 1)
+
+theorem attempts_spec (P : SProto Q) (cls : Bytes → Ev) (lim : Limits) (req : Bytes) (t : Nat) (hp : Bool)
+    (hnp : hp = false → ∀ d, cls d ≠ .pending) (k i : Nat) (s : Sys Q) (es : List SEv) (last : Out) (hl : last ≠ .blocked) :
+    (attempts P cls lim req (some t) k i s es last).1 ≠ .blocked ∧
+    (attempts P cls lim req (some t) k i s es last).2.1.now ≤ s.now + callBudget P lim t hp k i ∧
+    s.wire.length + 1 ≤ (attempts P cls lim req (some t) k i s es last).2.1.wire.length ∧
+    (attempts P cls lim req (some t) k i s es last).2.1.wire.length ≤ s.wire.length + k + 1 := by
+  induction k generalizing i s es last with
+  | zero =>
+    have hs := attemptStep_spec P cls lim req t false i s es last hp hnp
+    have hn := attemptStep_next P cls lim req (some t) false i s es last
+    unfold attempts callBudget
+    generalize attemptStep P cls lim req (some t) false i s es last = st at hs hn
+    cases st with
+    | fin o s1 es1 =>
+      simp only [Step.sys] at hs
+      refine ⟨fun h => hs.2.2 s1 es1 (by simp only at h; rw [h]), hs.1, ?_, ?_⟩ <;> simp only [hs.2.1, List.length_append, List.length_singleton] <;> omega
+    | next s1 es1 l =>
+      simp only [Step.sys] at hs
+      refine ⟨hn l s1 es1 hl rfl, hs.1, ?_, ?_⟩ <;> simp only [hs.2.1, List.length_append, List.length_singleton] <;> omega
+  | succ k ih =>
+    have hs := attemptStep_spec P cls lim req t true i s es last hp hnp
+    have hn := attemptStep_next P cls lim req (some t) true i s es last
+    unfold attempts callBudget
+    generalize attemptStep P cls lim req (some t) true i s es last = st at hs hn
+    cases st with
+    | fin o s1 es1 =>
+      simp only [Step.sys] at hs
+      refine ⟨fun h => hs.2.2 s1 es1 (by simp only at h; rw [h]), by have := hs.1; simp only; omega, ?_, ?_⟩ <;>
+        simp only [hs.2.1, List.length_append, List.length_singleton] <;> omega
+    | next s1 es1 l =>
+      simp only [Step.sys] at hs
+      have := ih (i + 1) s1 es1 l (hn l s1 es1 hl rfl)
+      have hw : s1.wire.length = s.wire.length + 1 := by rw [hs.2.1]; simp
+      refine ⟨this.1, by have := this.2.1; have := hs.1; simp only; omega, by have := this.2.2.1; simp only; omega,
+        by have := this.2.2.2; simp only; omega⟩
+
 end Gallia.LossSys
